@@ -20,7 +20,7 @@ SPEC = {
         "validate()/Validate()/validate* helpers/Load with argument (loop variables resolved) and nearest `X != \"\"` guard; dropped-error and Must* sites of cmd/pint; "
         "callers of matchRegex/strictRegex; the `X != \"\"` guard around EVERY dropped-error / Must* / regexp-helper call (site_guards); the block schema of the "
         "configuration (every hcl block field of internal/config), every nested `<owner>.<Field>.validate()` call with whether its error is returned, and the "
-        "struct types that have a validate method",
+        "struct types that have a validate method; every non-block option of every block and the receiver fields each validate method reads (directly or through a method of the same type, one level)",
         "reviewed table coq/Model/TemplatedRegexpSites.v: the class of each site. Validated rows (same function / Must wrapper / helper pair, same field) are CHECKED "
         "against the generated validators and guards, including that a validator under `F != \"\"` only covers uses that are all under `F != \"\"`; "
         "zero-value / defaulted / rule-data / harmless / constant / helper-body / CLI classes are review judgements, exercised by the binary-level runs, not proved",
@@ -28,7 +28,8 @@ SPEC = {
         "annotation, label, reject, name and aggregate blocks vs Model/TemplatedRegexpBlocks.v (valid and invalid patterns); text/template and regexp tabulated by "
         "the harness through the Go libraries",
         "binary oracle: `pint config` verdict vs panic / fatal error / timeout of `pint lint` (offline and online against an in-process fake Prometheus, ephemeral port) under ulimit -v 8 GiB; "
-        "systematic strata: every match/ignore condition x valid/invalid/borderline values x a rule file in which each condition is reached; documented --enabled/--disabled value forms",
+        "systematic strata: every match/ignore condition and every option of every rule-level settings block (and of check \"promql/series\") x valid/invalid/borderline values x a rule file in which each is reached; documented --enabled/--disabled value forms "
+        "(for the strata the load verdict is read off the lint run itself: every command loads the file through the same config.Load first)",
     ],
     "assumptions": [
         "the constant pattern [^\\s\\S] compiles (premise of the totality theorems; checked on every correspondence case)",
@@ -51,10 +52,12 @@ MANIFEST = {
             "emptiness guards on both sides (checked mechanically against the generated validator and guard tables), or belongs to a reviewed harmless class; no known-crash "
             "class exists any more (all crash rows found by this check were repaired in /repo: 457aa6b, 4986535, 4008951, 0b2762d, 72c92b8, 9df854d, 7fc2b62, 43069bd). "
             "(3) load-time validation reaches every one of the 35 blocks of the configuration schema: the block type has a validate method, its parent calls it on that "
-            "field and returns its error, transitively from config.Load; a new site or a new block without validation breaks the theorem. "
+            "field and returns its error, transitively from config.Load; and every one of the 128 OPTIONS of those blocks is looked at by its block's validate method, "
+            "or is a boolean, or carries a reviewed reason why any value is acceptable (36, among them the two options that are parsed later but never validated: "
+            "match.keep_firing_for and gitlab.timeout, whose dropped error only yields a zero value); a new site, block or option without validation breaks a theorem. "
             "Tied by the translator, by differential execution of NewTemplatedRegexp/Expand/MustExpand and of Rule.validate/parseRule/String/Check on patterns x rules with "
             "regexp/template metacharacters, and by running the real binary on generated configurations over every documented block/option (valid, invalid, templated values; "
-            "every match/ignore condition crossed with rules that reach it; --enabled/--disabled forms): `pint config` verdict vs panic/hang/OOM of lint runs (offline and "
+            "every match/ignore condition and every option of every rule-level block, one at a time over its whole value pool, crossed with a rule file that reaches it; --enabled/--disabled forms): `pint config` verdict vs panic/hang/OOM of lint runs (offline and "
             "against a fake Prometheus).",
     "note": "Coq 8.16.1 kernel+VM, no axioms; the harmless classes of the site table (zero value, defaulted, rule data, constant, helper body, CLI flag) are review "
             "judgements exercised by execution; no open known finding; crash freedom in general is not provable from an executable model and stays testing.",
